@@ -33,6 +33,17 @@ def loop_structure(F, R, fn, tag):
     poll_idx = [i for i, s in enumerate(ss) if is_poll(s) or (s["k"] == "If" and any(is_poll(x) for x in walk(s["cond"])))]
     R.ob("C31:%s:polls-every-outer-cycle" % tag, len(inner_idx) == 1 and len(poll_idx) >= 1 and poll_idx[0] > inner_idx[0],
          "the outer loop must consist of the bounded inner loop followed by an unconditional check_for_interrupt() (inner at %s, poll at %s of %d statements)" % (inner_idx, poll_idx, len(ss)), F.where(fn))
+    # a poll that took an interrupt has already thrown and backtracked to the handler: the loop goes on dispatching there.
+    # Where the poll is the condition of an `if`, neither branch may leave the loop or skip the rest of the cycle.
+    leaving = []
+    for s in ss:
+        if s["k"] == "If" and any(is_poll(x) for x in walk(s["cond"])):
+            for br in (s.get("then"), s.get("else")):
+                if br is not None:
+                    leaving += [x["ln"] for x in walk(br) if x["k"] in ("Break", "Ret", "Continue")]
+    R.ob("C31:%s:poll-result-does-not-leave-the-loop" % tag, not leaving,
+         "the outer loop leaves (break/return/continue at line %s) depending on the result of check_for_interrupt(): the interrupt has been raised and the handler's "
+         "instructions still have to be dispatched by this loop" % leaving, F.where(fn))
     conts = [n for n in walk(o) if n["k"] == "Continue" and n.get("label") == label]
     R.ob("C31:%s:no-continue-outer" % tag, not conts, "`continue %s` at lines %s would restart the outer loop without polling" % (label, [c["ln"] for c in conts]), F.where(fn))
     if inner_idx:
